@@ -15,6 +15,7 @@ type Layout struct {
 	Spell       bool   // random operator spellings
 	Parens      int    // 0 minimal, 1 full, 2 random redundant
 	CmdSpaces   bool   // random extra spaces inside commands
+	ReaderNoise bool   // vary the beginning and end of each reader's text
 	IfIndent    bool   // indent if-bodies
 	EscapeMore  bool   // escape characters that do not need it
 	HeaderSpace bool
@@ -296,6 +297,15 @@ func (w *writer) body(ind string, stmts []*Stmt) {
 		case "cmd":
 			var b strings.Builder
 			b.WriteString("<<")
+			if len(s.Cmd) == 0 || s.Cmd[0].E != nil {
+				// the lexer takes the first character after << as command text whatever it is; a white space that the
+				// lexer does not skip but strings.Fields does makes the first element an expression (or leaves no element)
+				lead := "\u00a0"
+				if l.R != nil {
+					lead = l.R.Pick("\u00a0", "\u3000", "\v", "\u00a0\u2003")
+				}
+				b.WriteString(lead)
+			}
 			for i, el := range s.Cmd {
 				if i > 0 {
 					b.WriteString(l.spaces())
@@ -339,6 +349,33 @@ func setOp(l *Layout, op string) string {
 }
 
 // Render writes the nodes as one Yarn text.
+// ReaderEnd varies how one reader's text begins and ends (each reader is a file of its own: its end is an end of input):
+// no final line end, a comment or blanks after the last ===, a file-level hashtag before the first node.
+func (l *Layout) ReaderEnd(s string) string {
+	if !l.ReaderNoise || l.R == nil {
+		return s
+	}
+	eol := l.EOL
+	if eol == "" {
+		eol = "\n"
+	}
+	switch l.R.Intn(8) {
+	case 0:
+		s = strings.TrimSuffix(s, eol)
+	case 1:
+		s = strings.TrimSuffix(s, eol) + " // the end"
+	case 2:
+		s += "    "
+	case 3:
+		s += "\t// c"
+	case 4:
+		s = "#version:2" + eol + s
+	case 5:
+		s = "#a" + eol + "#b:c" + eol + strings.TrimSuffix(s, eol)
+	}
+	return s
+}
+
 func (l *Layout) Render(nodes []*Node) string {
 	w := &writer{l: l}
 	for _, n := range nodes {
